@@ -68,7 +68,7 @@ Proof.
   set (f := {| s_function := fn; s_poll := poll; s_req_seq := req; s_final := fin |}) in *.
   destruct (sframe_bytes f) as [|b0 [|b1 [|? ?]]] eqn:E; try discriminate.
   rewrite !andb_true_iff in H4. destruct H4 as [[[_ _] Hb] He].
-  cbn [app ecf_parse]. rewrite Hb. cbn. apply sframe_eqb_eq in He. rewrite He. reflexivity.
+  cbn [app ecf_parse]. apply Z.eqb_eq in Hb. rewrite Hb. cbn [Z.eqb]. apply sframe_eqb_eq in He. rewrite He. reflexivity.
 Qed.
 
 Theorem ecf_value_roundtrip : forall c tail,
@@ -162,7 +162,7 @@ Theorem pdu_bytes_roundtrip : forall d cid payload,
 Proof.
   intros d cid payload Hok Hp Hlen.
   destruct d as [|l0 [|l1 [|c0 [|c1 r]]]]; try discriminate.
-  cbn [pdu_parse] in Hp. inversion Hp; subst cid payload; clear Hp.
+  cbn [pdu_parse] in Hp. injection Hp as <- <-.
   cbn [firstn] in Hlen.
   rewrite !bytes_ok_cons in Hok. rewrite !andb_true_iff in Hok.
   destruct Hok as [Hl0 [Hl1 [Hc0 [Hc1 Hr]]]].
@@ -360,7 +360,7 @@ Proof.
   intros d v rest Hok Hp.
   destruct d as [|b0 [|b1 r]]; try discriminate.
   cbn [psm_parse] in Hp. destruct (psm_more b1 r) as [[e rest']|] eqn:Em; [|discriminate].
-  inversion Hp; subst v rest'; clear Hp.
+  injection Hp as <- <-.
   apply psm_more_split in Em as [-> Hoct].
   exists (b0 :: b1 :: e). split; [reflexivity|]. split; [exact Hoct|].
   assert (Hok' : bytes_ok (b0 :: b1 :: e) = true).
@@ -514,7 +514,7 @@ Theorem sig_bytes_roundtrip : forall d code ident len payload,
 Proof.
   intros d code ident len payload Hok Hp Hlen.
   destruct d as [|c [|i [|l0 [|l1 r]]]]; try discriminate.
-  cbn [sig_parse] in Hp. inversion Hp; subst code ident len payload; clear Hp.
+  cbn [sig_parse] in Hp. injection Hp as <- <- <- <-.
   rewrite !bytes_ok_cons in Hok. rewrite !andb_true_iff in Hok. destruct Hok as [Hc [Hi [H0 [H1 Hr]]]].
   unfold sig_bytes. rewrite <- Hlen.
   assert (Hb2 : bytes_ok [l0; l1] = true) by (cbn; rewrite H0, H1; reflexivity).
